@@ -140,6 +140,10 @@ def run(run):
             if not mb.ok or mb.dontcare:
                 continue
             bases += 1
+            if bases % 3 == 0 and rm.type_of(mb.data) == "Float":
+                base = gen.add_exotic_parameter(base, g)     # a parameter value JSON cannot encode must not damage the trace
+                mb = rm.run_pipeline(base["nodes"], base["data"], base["ctx"])
+                run.count("bases_with_exotic_parameter_value")
             n = len(base["nodes"])
             for i in range(n + 1):
                 for kind in KINDS:
